@@ -77,6 +77,9 @@ def main():
         out['status'] = 'error'
         out['error'] = type(e).__name__
         out['message'] = str(e)[:200]
+    import logging
+    out['root_log_level'] = logging.getLogger().level
+    out['default_config'] = str(config.DEFAULT_CONFIG_PATH)
     out.update(record)
     sys.stdout.write('\nC19RESULT ' + json.dumps(out) + '\n')
 
